@@ -1,5 +1,5 @@
 (* Lemmas and proofs about Model/HttpParse.v. *)
-From Chihaya Require Import Model.HttpParse Proofs.QueryP.
+From Chihaya Require Import Model.HttpParse Model.HttpRender Proofs.QueryP.
 From Coq Require Import ZifyBool ZifyNat Permutation.
 Open Scope Z_scope.
 
@@ -122,31 +122,35 @@ Section Accept.
        r_peer := {| p_id := pid; p_ip := ip; p_port := port |}; r_af := V4 |}.
 
   Definition announce_checks (o : popts) (q : qparams) (remote : bytes)
-             event ih pid nleft dl ul nw port ip ipp : Prop :=
+             event ih pid nleft dl ul nw port (oip : option bytes) ipp : Prop :=
     (match q_string q k_event with Some s => new_event s | None => Some EvNone end) = Some event /\
     q_ihs q = [ih] /\ q_string q k_peer_id = Some pid /\ length pid = 20%nat /\
     q_uint q k_left 64 = UOk nleft /\ q_uint q k_downloaded 64 = UOk dl /\
     q_uint q k_uploaded 64 = UOk ul /\ q_uint q k_numwant 32 = nw /\ nw <> UBad /\
     q_uint q k_port 16 = UOk port /\
-    requested_ip parse_ip header_get split_host o q remote = (Some ip, ipp).
+    requested_ip parse_ip header_get split_host o q remote = (oip, ipp).
 
-  Lemma announce_of_params_spec o q remote event ih pid nleft dl ul nw port ip ipp :
-    announce_checks o q remote event ih pid nleft dl ul nw port ip ipp ->
+  Lemma announce_of_params_spec o q remote event ih pid nleft dl ul nw port oip ipp :
+    announce_checks o q remote event ih pid nleft dl ul nw port oip ipp ->
     announce_of_params parse_ip header_get split_host o q remote =
-    match sanitize_announce (raw_req q event ih pid nleft dl ul nw port ip ipp)
-                            (o_max_numwant o) (o_default_numwant o) with
-    | inl e => Reject e | inr r' => Accept r' end.
+    match oip with
+    | None => Reject (ClientErr E_ip)
+    | Some ip =>
+      match sanitize_announce (raw_req q event ih pid nleft dl ul nw port ip ipp)
+                              (o_max_numwant o) (o_default_numwant o) with
+      | inl e => Reject e | inr r' => Accept r' end
+    end.
   Proof.
     intros (Hev & Hih & Hpid & Hlen & Hl & Hd & Hu & Hnw & Hnb & Hp & Hip).
     unfold announce_of_params. rewrite Hev, Hih, Hpid, Hl, Hd, Hu, Hnw, Hp, Hip.
     unfold id_from_string. rewrite Hlen. cbn [Nat.eqb negb].
-    unfold raw_req. destruct nw; try congruence; reflexivity.
+    unfold raw_req. destruct nw; try congruence; destruct oip; reflexivity.
   Qed.
 
   Lemma announce_of_params_accept o q remote r' :
     announce_of_params parse_ip header_get split_host o q remote = Accept r' ->
     exists event ih pid nleft dl ul nw port ip ipp,
-      announce_checks o q remote event ih pid nleft dl ul nw port ip ipp /\
+      announce_checks o q remote event ih pid nleft dl ul nw port (Some ip) ipp /\
       sanitize_announce (raw_req q event ih pid nleft dl ul nw port ip ipp)
                         (o_max_numwant o) (o_default_numwant o) = inr r'.
   Proof.
@@ -226,4 +230,577 @@ Proof.
   intros Hm. unfold parse_scrape. destruct (parse_url_data uri) as [e|q']; [discriminate|].
   unfold scrape_of_params. destruct (q_ihs q') eqn:E; [discriminate|].
   intros H; injection H as <- <-. apply sanitize_scrape_limit, Hm.
+Qed.
+
+(* ------------------------------------------------------------------------
+   ParseAnnounce looks at the query only through String(name) and InfoHashes() *)
+Section Ext.
+  Variable parse_ip : bytes -> option bytes.
+  Variable header_get : bytes -> bytes.
+  Variable split_host : bytes -> bytes.
+
+  Lemma announce_of_params_ext o q q' remote :
+    (forall k, q_string q k = q_string q' k) -> q_ihs q = q_ihs q' ->
+    announce_of_params parse_ip header_get split_host o q remote =
+    announce_of_params parse_ip header_get split_host o q' remote.
+  Proof.
+    intros HS HI. unfold announce_of_params, requested_ip, ip_source, q_uint.
+    rewrite HI. rewrite !HS. reflexivity.
+  Qed.
+
+  Lemma omap_fst_pair {A B} (x : outcome A) (q : B) :
+    omap fst (match x with Accept r => Accept (r, q) | Reject e => Reject e | Panic => Panic end) = x.
+  Proof. destruct x; reflexivity. Qed.
+
+  (* ParseAnnounce on  path ? seg & seg & ...  *)
+  Lemma parse_announce_segs o path l remote :
+    no_qmark path = true ->
+    Forall (fun sc => seg_ok (fst sc) = true /\ is_amp_semi (snd sc) = true) l ->
+    omap fst (parse_announce parse_ip header_get split_host o (path ++ 63 :: join_sep l) remote) =
+    match first_err (map seg_sem (map fst l)) with
+    | Some e => Reject e
+    | None => announce_of_params parse_ip header_get split_host o
+                (mk_q path (join_sep l) (map seg_sem (map fst l))) remote
+    end.
+  Proof.
+    intros Hp Hl. unfold parse_announce. rewrite parse_url_data_segs by assumption. cbv zeta.
+    destruct (first_err _); [reflexivity|]. apply omap_fst_pair.
+  Qed.
+End Ext.
+
+Lemma amp_list_ok segs : forallb seg_ok segs = true ->
+  Forall (fun sc : bytes * Z => seg_ok (fst sc) = true /\ is_amp_semi (snd sc) = true)
+         (map (fun s => (s, 38)) segs).
+Proof.
+  intros H. apply Forall_forall. intros [s c] Hin. apply in_map_iff in Hin as (s' & E & Hin).
+  injection E as -> <-. cbn [fst snd]. split; [|reflexivity].
+  rewrite forallb_forall in H. apply H, Hin.
+Qed.
+
+Lemma map_fst_amp (segs : list bytes) : map fst (map (fun s : bytes => (s, 38)) segs) = segs.
+Proof. rewrite map_map. cbn [fst]. apply map_id. Qed.
+
+(* ------------------------------------------------------------------------
+   facts about lists of segment meanings *)
+Lemma first_err_app a b :
+  first_err (a ++ b) = match first_err a with Some e => Some e | None => first_err b end.
+Proof. induction a as [|[|e|v|k v] a IH]; cbn [first_err app]; auto. Qed.
+
+Lemma first_err_none l : first_err l = None <-> forall e, ~ In (SErr e) l.
+Proof.
+  induction l as [|s l IH]; cbn [first_err In]; [split; [intros _ e C; exact C|reflexivity]|].
+  destruct s as [|e|v|k v].
+  - rewrite IH. split; intros H e; [intros [C|C]; [discriminate|eapply H; eauto]|intros C; eapply H; eauto].
+  - split; [discriminate|]. intros H. exfalso. eapply H. left. reflexivity.
+  - rewrite IH. split; intros H e; [intros [C|C]; [discriminate|eapply H; eauto]|intros C; eapply H; eauto].
+  - rewrite IH. split; intros H e; [intros [C|C]; [discriminate|eapply H; eauto]|intros C; eapply H; eauto].
+Qed.
+
+Lemma first_err_perm l l' : Permutation l l' -> first_err l = None -> first_err l' = None.
+Proof.
+  intros P H. apply first_err_none. intros e C. eapply first_err_none; [exact H|].
+  eapply Permutation_in; [apply Permutation_sym, P|exact C].
+Qed.
+
+Definition sem_keys (l : list segsem) : list (option bytes) :=
+  flat_map (fun s => match s with SIH _ => [None] | SP k _ => [Some k] | _ => [] end) l.
+
+Lemma seg_keys_sems segs : seg_keys segs = sem_keys (map seg_sem segs).
+Proof.
+  unfold seg_keys, sem_keys. induction segs as [|s r IH]; [reflexivity|].
+  cbn [flat_map map]. rewrite IH. reflexivity.
+Qed.
+
+Lemma sem_pairs_keys k v l : In (k, v) (sem_pairs l) -> In (Some k) (sem_keys l).
+Proof.
+  induction l as [|s l IH]; cbn [sem_pairs sem_keys flat_map]; [tauto|].
+  fold (sem_pairs l). fold (sem_keys l). intros H. apply in_app_or in H. apply in_or_app.
+  destruct H as [H|H]; [left|right; apply IH, H].
+  destruct s; cbn in H |- *; try tauto. destruct H as [H|[]]. injection H as -> ->. left; reflexivity.
+Qed.
+
+Lemma sem_pairs_unique l : NoDup (sem_keys l) ->
+  forall k v1 v2, In (k, v1) (sem_pairs l) -> In (k, v2) (sem_pairs l) -> v1 = v2.
+Proof.
+  induction l as [|s l IH]; intros ND k v1 v2; cbn [sem_pairs flat_map]; [intros []|].
+  fold (sem_pairs l). cbn [sem_keys flat_map] in ND. fold (sem_keys l) in ND.
+  destruct s as [|e|v|k0 v0]; cbn [app] in *.
+  - apply IH, ND.
+  - apply IH, ND.
+  - inversion ND; subst. apply IH; assumption.
+  - inversion ND as [|? ? NI ND']; subst. intros [H1|H1] [H2|H2].
+    + congruence.
+    + injection H1 as -> ->. exfalso. apply NI. eapply sem_pairs_keys; eauto.
+    + injection H2 as -> ->. exfalso. apply NI. eapply sem_pairs_keys; eauto.
+    + eapply IH; eauto.
+Qed.
+
+Lemma sem_ihs_nokey l : ~ In None (sem_keys l) -> sem_ihs l = [].
+Proof.
+  induction l as [|s l IH]; cbn [sem_keys sem_ihs flat_map]; [reflexivity|].
+  fold (sem_keys l). fold (sem_ihs l). intros H.
+  destruct s as [|e|v|k v]; cbn [app] in *.
+  - apply IH, H.
+  - apply IH, H.
+  - exfalso. apply H. left; reflexivity.
+  - apply IH. intros C. apply H. right; exact C.
+Qed.
+
+Lemma sem_ihs_short l : NoDup (sem_keys l) -> (length (sem_ihs l) <= 1)%nat.
+Proof.
+  induction l as [|s l IH]; cbn [sem_keys sem_ihs flat_map]; [cbn; lia|].
+  fold (sem_keys l). fold (sem_ihs l). intros ND.
+  destruct s as [|e|v|k v]; cbn [app] in *.
+  - apply IH, ND.
+  - apply IH, ND.
+  - inversion ND as [|? ? NI ND']; subst. rewrite (sem_ihs_nokey l NI). cbn. lia.
+  - inversion ND; subst. apply IH; assumption.
+Qed.
+
+Lemma perm_short_eq {A} (a b : list A) : Permutation a b -> (length a <= 1)%nat -> a = b.
+Proof.
+  intros P L. destruct a as [|x [|y a]]; cbn in L; try lia.
+  - apply Permutation_nil in P. congruence.
+  - apply Permutation_length_1_inv in P. congruence.
+Qed.
+
+Lemma forallb_perm {A} (f : A -> bool) l l' : Permutation l l' -> forallb f l = true -> forallb f l' = true.
+Proof.
+  intros P H. rewrite forallb_forall in *. intros x Hx. apply H.
+  eapply Permutation_in; [apply Permutation_sym, P|exact Hx].
+Qed.
+
+(* ------------------------------------------------------------------------
+   last value wins; order of distinct parameters is irrelevant *)
+Section Order.
+  Variable parse_ip : bytes -> option bytes.
+  Variable header_get : bytes -> bytes.
+  Variable split_host : bytes -> bytes.
+  Notation parse := (parse_announce parse_ip header_get split_host).
+
+  Lemma last_value_wins o path remote s1 s s2 k v :
+    no_qmark path = true -> forallb seg_ok (s1 ++ s :: s2) = true ->
+    seg_sem s = SP k v ->
+    (exists s' v', In s' s2 /\ seg_sem s' = SP k v') ->
+    omap fst (parse o (path ++ 63 :: join_amp (s1 ++ s :: s2)) remote) =
+    omap fst (parse o (path ++ 63 :: join_amp (s1 ++ s2)) remote).
+  Proof.
+    intros Hp Hok Hs (s' & v' & Hin & Hs').
+    assert (Hok' : forallb seg_ok (s1 ++ s2) = true).
+    { rewrite forallb_app in *. cbn [forallb] in Hok.
+      apply andb_true_iff in Hok as [A B]. apply andb_true_iff in B as [_ B]. rewrite A, B. reflexivity. }
+    rewrite !join_amp_sep. rewrite !parse_announce_segs by (auto using amp_list_ok).
+    rewrite !map_fst_amp. rewrite !map_app. cbn [map]. rewrite Hs.
+    rewrite !first_err_app. cbn [first_err].
+    destruct (first_err (map seg_sem s1)); [reflexivity|].
+    destruct (first_err (map seg_sem s2)); [reflexivity|].
+    apply announce_of_params_ext.
+    - intros key. unfold q_string, mk_q. cbn [q_params].
+      unfold sem_pairs. rewrite !flat_map_app. cbn [flat_map]. fold (sem_pairs (map seg_sem s1)).
+      fold (sem_pairs (map seg_sem s2)). rewrite !rev_app_distr. cbn [rev app].
+      rewrite <- app_assoc. cbn [app].
+      apply q_lookup_shadow. exists v'. apply in_rev. rewrite rev_involutive.
+      unfold sem_pairs. apply in_flat_map. exists (SP k v'). split; [|left; reflexivity].
+      rewrite <- Hs'. apply in_map, Hin.
+    - unfold mk_q. cbn [q_ihs]. unfold sem_ihs. rewrite !flat_map_app. cbn [flat_map app]. reflexivity.
+  Qed.
+
+  Lemma parse_perm o path remote segs segs' :
+    no_qmark path = true -> forallb seg_ok segs = true ->
+    Permutation segs segs' -> NoDup (seg_keys segs) ->
+    omap fst (parse o (path ++ 63 :: join_amp segs) remote) =
+    omap fst (parse o (path ++ 63 :: join_amp segs') remote) \/
+    (exists e e', omap fst (parse o (path ++ 63 :: join_amp segs) remote) = Reject e /\
+                  omap fst (parse o (path ++ 63 :: join_amp segs') remote) = Reject e').
+  Proof.
+    intros Hp Hok P ND.
+    assert (Hok' : forallb seg_ok segs' = true) by (eapply forallb_perm; eauto).
+    rewrite !join_amp_sep. rewrite !parse_announce_segs by (auto using amp_list_ok).
+    rewrite !map_fst_amp.
+    assert (PS : Permutation (map seg_sem segs) (map seg_sem segs')) by (apply Permutation_map, P).
+    rewrite seg_keys_sems in ND.
+    destruct (first_err (map seg_sem segs)) as [e|] eqn:E1.
+    - destruct (first_err (map seg_sem segs')) as [e'|] eqn:E2.
+      + right. exists e, e'. split; reflexivity.
+      + apply (first_err_perm _ _ (Permutation_sym PS)) in E2. congruence.
+    - rewrite (first_err_perm _ _ PS E1). left. apply announce_of_params_ext.
+      + intros key. unfold q_string, mk_q. cbn [q_params]. apply q_lookup_perm.
+        * apply Permutation_trans with (sem_pairs (map seg_sem segs)); [apply Permutation_sym, Permutation_rev|].
+          apply Permutation_trans with (sem_pairs (map seg_sem segs')); [|apply Permutation_rev].
+          unfold sem_pairs. apply Permutation_flat_map, PS.
+        * intros v1 v2 H1 H2. apply in_rev in H1. apply in_rev in H2.
+          eapply sem_pairs_unique; eauto.
+      + unfold mk_q. cbn [q_ihs]. apply perm_short_eq; [|apply sem_ihs_short, ND].
+        unfold sem_ihs. apply Permutation_flat_map, PS.
+  Qed.
+
+  Lemma order_independent o path remote segs segs' :
+    no_qmark path = true -> forallb seg_ok segs = true ->
+    Permutation segs segs' -> NoDup (seg_keys segs) ->
+    (forall r, omap fst (parse o (path ++ 63 :: join_amp segs) remote) = Accept r ->
+               omap fst (parse o (path ++ 63 :: join_amp segs') remote) = Accept r) /\
+    (forall e, omap fst (parse o (path ++ 63 :: join_amp segs) remote) = Reject e ->
+               exists e', omap fst (parse o (path ++ 63 :: join_amp segs') remote) = Reject e').
+  Proof.
+    intros Hp Hok P ND. destruct (parse_perm o path remote segs segs' Hp Hok P ND) as [E|(e & e' & E1 & E2)].
+    - rewrite <- E. split; [auto|]. intros e H. exists e. exact H.
+    - rewrite E1, E2. split; [discriminate|]. intros e0 _. exists e'. reflexivity.
+  Qed.
+End Order.
+
+(* ------------------------------------------------------------------------
+   round trip: whatever the escaping, order, separators, key spelling and
+   unrelated parameters, the fields come back *)
+Lemma ascii_lower_id s : forallb (fun c => (97 <=? c) && (c <=? 122)) s = true -> ascii_lower s = s.
+Proof.
+  induction s as [|c s IH]; intros H; [reflexivity|].
+  cbn [forallb] in H. apply andb_true_iff in H as [H1 H2]. cbn [ascii_lower map].
+  fold (ascii_lower s). rewrite IH by exact H2.
+  destruct ((65 <=? c) && (c <=? 90)) eqn:E; [lia|reflexivity].
+Qed.
+
+Lemma ascii_lower_spell s : forallb (fun c => (97 <=? c) && (c <=? 122)) s = true ->
+  forall mask, ascii_lower (spell mask s) = s.
+Proof.
+  induction s as [|c s IH]; intros H mask; [destruct mask; reflexivity|].
+  pose proof H as Hall. cbn [forallb] in H. apply andb_true_iff in H as [H1 H2].
+  destruct mask as [|[|] m]; cbn [spell].
+  - apply ascii_lower_id, Hall.
+  - cbn [ascii_lower map]. fold (ascii_lower (spell m s)). rewrite IH by exact H2.
+    destruct ((65 <=? c - 32) && (c - 32 <=? 90)) eqn:E; [f_equal; lia|lia].
+  - cbn [ascii_lower map]. fold (ascii_lower (spell m s)). rewrite IH by exact H2.
+    destruct ((65 <=? c) && (c <=? 90)) eqn:E; [lia|reflexivity].
+Qed.
+
+Lemma new_event_spell e mask : new_event (spell mask (event_name e)) = Some e.
+Proof.
+  unfold new_event. rewrite ascii_lower_spell by (destruct e; reflexivity). destruct e; reflexivity.
+Qed.
+
+Definition sem_of_lparam (lp : lparam) : segsem :=
+  match lp with
+  | LIH v => if Nat.eqb (length v) 20 then SIH v else SErr ErrInvalidInfohash
+  | LP k v => SP k v
+  end.
+
+Lemma sems_of_lparams L : (forall v, In (LIH v) L -> length v = 20%nat) ->
+  first_err (map sem_of_lparam L) = None /\
+  sem_pairs (map sem_of_lparam L) = lp_pairs L /\ sem_ihs (map sem_of_lparam L) = lp_ihs L.
+Proof.
+  induction L as [|lp L IH]; intros H; [repeat split|].
+  destruct IH as (A & B & C); [intros v Hv; apply H; right; exact Hv|].
+  destruct lp as [v|k v]; cbn [map sem_of_lparam].
+  - rewrite (H v) by (left; reflexivity). cbn [Nat.eqb first_err].
+    unfold sem_pairs, sem_ihs, lp_pairs, lp_ihs in *. cbn [flat_map app]. rewrite B, C. auto.
+  - cbn [first_err]. unfold sem_pairs, sem_ihs, lp_pairs, lp_ihs in *. cbn [flat_map app]. rewrite B, C. auto.
+Qed.
+
+Definition styled_list (sps : list sparam) : list (bytes * Z) :=
+  map (fun p => (render_seg p, if sp_semi p then 59 else 38)) sps.
+
+Lemma rendered_sems sps : Forall (fun p => sparam_ok p = true) sps ->
+  map seg_sem (map fst (styled_list sps)) = map sem_of_lparam (map classify (map logical sps)).
+Proof.
+  intros H. unfold styled_list. rewrite !map_map. apply map_ext_in. intros p Hin. cbn [fst].
+  rewrite Forall_forall in H. rewrite seg_sem_render by (apply H, Hin). reflexivity.
+Qed.
+
+Lemma rendered_list_ok sps : Forall (fun p => sparam_ok p = true) sps ->
+  Forall (fun sc : bytes * Z => seg_ok (fst sc) = true /\ is_amp_semi (snd sc) = true) (styled_list sps).
+Proof.
+  intros H. apply Forall_forall. intros [s c] Hin. apply in_map_iff in Hin as (p & E & Hin).
+  injection E as <- <-. cbn [fst snd]. rewrite Forall_forall in H. split.
+  - apply render_seg_ok, H, Hin.
+  - destruct (sp_semi p); reflexivity.
+Qed.
+
+Definition LPp (kv : bytes * bytes) : lparam := LP (fst kv) (snd kv).
+Lemma lp_pairs_LP X : lp_pairs (map LPp X) = X.
+Proof. induction X as [|[k v] X IH]; [reflexivity|]. cbn. unfold lp_pairs in IH. rewrite IH. reflexivity. Qed.
+Lemma lp_ihs_LP X : lp_ihs (map LPp X) = [].
+Proof. induction X as [|[k v] X IH]; [reflexivity|]. cbn. exact IH. Qed.
+
+(* lookups in a table with optional entries *)
+Lemma in_somes k v t : In (k, v) (somes t) <-> In (k, Some v) t.
+Proof.
+  unfold somes. rewrite in_flat_map. split.
+  - intros ([k' ov] & Hin & H). cbn [fst snd] in H. destruct ov as [w|]; [|destruct H].
+    destruct H as [H|[]]. injection H as -> ->. exact Hin.
+  - intros H. exists (k, Some v). split; [exact H|left; reflexivity].
+Qed.
+
+Lemma q_lookup_notin k ps : (forall v, ~ In (k, v) ps) -> q_lookup k ps = None.
+Proof.
+  intros H. destruct (q_lookup k ps) as [v|] eqn:E; [|reflexivity].
+  apply q_lookup_some_in in E. exfalso. eapply H; eauto.
+Qed.
+
+Lemma lookup_somes t : NoDup (map fst t) -> forall k ov, In (k, ov) t -> q_lookup k (somes t) = ov.
+Proof.
+  induction t as [|[k0 ov0] t IH]; intros ND k ov Hin; [destruct Hin|].
+  cbn [map fst] in ND. inversion ND as [|? ? NI ND']; subst.
+  unfold somes. cbn [flat_map fst snd]. fold (somes t). rewrite q_lookup_app.
+  destruct Hin as [E|Hin].
+  - injection E as -> ->. destruct ov as [v|].
+    + cbn [q_lookup]. rewrite bytes_eqb_refl. reflexivity.
+    + cbn [q_lookup]. apply q_lookup_notin. intros v Hv. apply in_somes in Hv.
+      apply NI. apply in_map_iff. exists (k, Some v). split; [reflexivity|exact Hv].
+  - assert (NE : bytes_eqb k k0 = false).
+    { destruct (bytes_eqb k k0) eqn:E; [|reflexivity]. apply bytes_eqb_eq in E. subst.
+      exfalso. apply NI. apply in_map_iff. exists (k0, ov). split; [reflexivity|exact Hin]. }
+    destruct ov0 as [v0|]; cbn [q_lookup]; [rewrite NE|]; apply IH; assumption.
+Qed.
+
+Fixpoint memb (k : bytes) (l : list bytes) : bool :=
+  match l with [] => false | x :: r => bytes_eqb k x || memb k r end.
+Fixpoint nodupb (l : list bytes) : bool :=
+  match l with [] => true | x :: r => negb (memb x r) && nodupb r end.
+Lemma memb_in k l : memb k l = true <-> In k l.
+Proof.
+  induction l as [|x l IH]; cbn [memb In]; [split; [discriminate|tauto]|].
+  rewrite orb_true_iff, IH, bytes_eqb_eq. split; intros [H|H]; auto.
+Qed.
+Lemma nodupb_sound l : nodupb l = true -> NoDup l.
+Proof.
+  induction l as [|x l IH]; cbn [nodupb]; [constructor|].
+  intros H. apply andb_true_iff in H as [H1 H2]. constructor; [|apply IH, H2].
+  intros C. apply memb_in in C. rewrite C in H1. discriminate.
+Qed.
+
+Lemma field_table_nodup f : NoDup (map fst (field_table f)).
+Proof. apply nodupb_sound. reflexivity. Qed.
+
+Lemma field_table_keys f k ov : In (k, ov) (field_table f) -> In k announce_keys.
+Proof.
+  unfold field_table, announce_keys. cbn [In].
+  intros H. repeat (destruct H as [H|H]; [injection H as <- _; tauto|]). destruct H.
+Qed.
+
+Lemma field_lookup f k ov : In (k, ov) (field_table f) -> q_lookup k (field_params f) = ov.
+Proof. apply lookup_somes, field_table_nodup. Qed.
+
+Section RoundTrip.
+  Variable parse_ip : bytes -> option bytes.
+  Variable header_get : bytes -> bytes.
+  Variable split_host : bytes -> bytes.
+  Notation parse := (parse_announce parse_ip header_get split_host).
+
+  (* the lookups ParseAnnounce performs see exactly the field table *)
+  Lemma lookups_are_fields f extra ps :
+    Permutation ps (field_params f ++ extra) ->
+    Forall (fun kv : bytes * bytes => ~ In (fst kv) announce_keys) extra ->
+    forall k, In k announce_keys -> q_lookup k ps = q_lookup k (field_params f).
+  Proof.
+    intros P Hex k Hk.
+    assert (NX : forall v, ~ In (k, v) extra).
+    { intros v Hin. rewrite Forall_forall in Hex. apply (Hex _ Hin). exact Hk. }
+    transitivity (q_lookup k (field_params f ++ extra)).
+    - symmetry. apply q_lookup_perm; [apply Permutation_sym, P|].
+      assert (U : forall v, In (k, v) (field_params f ++ extra) -> q_lookup k (field_params f) = Some v).
+      { intros v Hin. apply in_app_or in Hin as [Hin|Hin]; [|exfalso; eapply NX; eauto].
+        apply in_somes in Hin. apply field_lookup, Hin. }
+      intros v1 v2 H1 H2. apply U in H1. apply U in H2. congruence.
+    - rewrite q_lookup_app. rewrite (q_lookup_notin k extra NX). destruct (q_lookup k (field_params f)); reflexivity.
+  Qed.
+
+  Lemma announce_roundtrip o f path sps extra remote :
+    wf_fields f = true ->
+    Forall (fun p => sparam_ok p = true) sps ->
+    no_qmark path = true ->
+    Permutation (map classify (map logical sps)) (LIH (f_ih f) :: map LPp (field_params f ++ extra)) ->
+    Forall (fun kv : bytes * bytes => ~ In (fst kv) announce_keys) extra ->
+    omap fst (parse o (path ++ 63 :: render_query sps) remote) =
+    match parse_ip (fst (fields_ip_source header_get split_host o f remote)) with
+    | None => Reject (ClientErr E_ip)
+    | Some ip =>
+      match sanitize_announce (fields_req f ip (snd (fields_ip_source header_get split_host o f remote)))
+                              (o_max_numwant o) (o_default_numwant o) with
+      | inl e => Reject e
+      | inr r => Accept r
+      end
+    end.
+  Proof.
+    intros Hwf Hok Hp P Hex.
+    rewrite render_query_sep. fold (styled_list sps).
+    rewrite parse_announce_segs by (auto using rendered_list_ok).
+    rewrite rendered_sems by exact Hok.
+    set (L := map classify (map logical sps)) in *.
+    unfold wf_fields in Hwf. repeat (apply andb_true_iff in Hwf as [Hwf ?]).
+    assert (Hih20 : length (f_ih f) = 20%nat) by (apply Nat.eqb_eq; assumption).
+    assert (Hpid20 : length (f_pid f) = 20%nat) by (apply Nat.eqb_eq; assumption).
+    assert (HL20 : forall v, In (LIH v) L -> length v = 20%nat).
+    { intros v Hv. eapply Permutation_in in Hv; [|exact P]. destruct Hv as [E|Hv].
+      - injection E as <-. exact Hih20.
+      - apply in_map_iff in Hv as (kv & E & _). discriminate. }
+    destruct (sems_of_lparams L HL20) as (E1 & E2 & E3). rewrite E1.
+    set (q := mk_q path (join_sep (styled_list sps)) (map sem_of_lparam L)).
+    assert (QI : q_ihs q = [f_ih f]).
+    { unfold q, mk_q. cbn [q_ihs]. rewrite E3.
+      assert (PI : Permutation (lp_ihs L) [f_ih f]).
+      { unfold lp_ihs. eapply Permutation_trans; [apply Permutation_flat_map, P|].
+        cbn [flat_map app]. fold (lp_ihs (map LPp (field_params f ++ extra))).
+        rewrite lp_ihs_LP. apply Permutation_refl. }
+      apply Permutation_sym, Permutation_length_1_inv in PI. exact PI. }
+    assert (QP : Permutation (q_params q) (field_params f ++ extra)).
+    { unfold q, mk_q. cbn [q_params]. rewrite E2.
+      eapply Permutation_trans; [apply Permutation_sym, Permutation_rev|].
+      unfold lp_pairs. eapply Permutation_trans; [apply Permutation_flat_map, P|].
+      cbn [flat_map app]. fold (lp_pairs (map LPp (field_params f ++ extra))).
+      rewrite lp_pairs_LP. apply Permutation_refl. }
+    assert (HK : forall k ov, In (k, ov) (field_table f) -> q_string q k = ov).
+    { intros k ov Hin. unfold q_string.
+      rewrite (lookups_are_fields f extra _ QP Hex k (field_table_keys f k ov Hin)).
+      apply field_lookup, Hin. }
+    assert (K1 : q_string q k_peer_id = Some (f_pid f)) by (apply HK; cbn; tauto).
+    assert (K2 : q_string q k_port = Some (fmt_uint (f_port f))) by (apply HK; cbn; tauto).
+    assert (K3 : q_string q k_left = Some (fmt_uint (f_left f))) by (apply HK; cbn; tauto).
+    assert (K4 : q_string q k_downloaded = Some (fmt_uint (f_downloaded f))) by (apply HK; cbn; tauto).
+    assert (K5 : q_string q k_uploaded = Some (fmt_uint (f_uploaded f))) by (apply HK; cbn; tauto).
+    assert (K6 : q_string q k_event = option_map (fun em => spell (snd em) (event_name (fst em))) (f_event f))
+      by (apply HK; cbn; tauto).
+    assert (K7 : q_string q k_numwant = option_map fmt_uint (f_numwant f)) by (apply HK; cbn; tauto).
+    assert (K8 : q_string q k_compact = f_compact f) by (apply HK; cbn; tauto).
+    assert (K9 : q_string q k_ip = f_ip f) by (apply HK; cbn; tauto).
+    assert (K10 : q_string q k_ipv4 = f_ipv4 f) by (apply HK; cbn; tauto).
+    assert (K11 : q_string q k_ipv6 = f_ipv6 f) by (apply HK; cbn; tauto).
+    assert (SRC : ip_source header_get split_host o q remote = fields_ip_source header_get split_host o f remote).
+    { unfold ip_source, fields_ip_source. rewrite K9, K10, K11. reflexivity. }
+    rewrite (announce_of_params_spec parse_ip header_get split_host o q remote
+               (match f_event f with Some (e, _) => e | None => EvNone end)
+               (f_ih f) (f_pid f) (f_left f) (f_downloaded f) (f_uploaded f)
+               (match f_numwant f with Some n => UOk n | None => UMissing end) (f_port f)
+               (parse_ip (fst (fields_ip_source header_get split_host o f remote)))
+               (snd (fields_ip_source header_get split_host o f remote))).
+    - destruct (parse_ip _) as [ip|]; [|reflexivity].
+      replace (raw_req q _ _ _ _ _ _ _ _ ip _)
+        with (fields_req f ip (snd (fields_ip_source header_get split_host o f remote))); [reflexivity|].
+      unfold raw_req, fields_req. rewrite K6, K8.
+      destruct (f_event f) as [[e m]|]; destruct (f_numwant f); reflexivity.
+    - unfold announce_checks. rewrite K6, QI, K1. unfold q_uint. rewrite K2, K3, K4, K5, K7.
+      rewrite !parse_uint_fmt by lia.
+      repeat split; auto.
+      + destruct (f_event f) as [[e m]|]; cbn [option_map fst snd]; [apply new_event_spell|reflexivity].
+      + destruct (f_numwant f) as [n|]; cbn [option_map]; [rewrite parse_uint_fmt by lia|]; reflexivity.
+      + destruct (f_numwant f); discriminate.
+      + unfold requested_ip. rewrite SRC.
+        destruct (fields_ip_source header_get split_host o f remote); reflexivity.
+  Qed.
+End RoundTrip.
+
+(* ------------------------------------------------------------------------
+   scrape round trip *)
+Lemma in_lp_ihs v L : In (LIH v) L -> In v (lp_ihs L).
+Proof. intros H. unfold lp_ihs. apply in_flat_map. exists (LIH v). split; [exact H|left; reflexivity]. Qed.
+
+Lemma scrape_roundtrip o path sps :
+  Forall (fun p => sparam_ok p = true) sps -> no_qmark path = true ->
+  (forall v, In v (lp_ihs (map classify (map logical sps))) -> length v = 20%nat) ->
+  omap fst (parse_scrape o (path ++ 63 :: render_query sps)) =
+  match lp_ihs (map classify (map logical sps)) with
+  | [] => Reject (ClientErr E_no_ih)
+  | ihs => Accept (sanitize_scrape ihs (o_max_scrape o))
+  end.
+Proof.
+  intros Hok Hp H20. unfold parse_scrape. rewrite render_query_sep. fold (styled_list sps).
+  rewrite parse_url_data_segs by (auto using rendered_list_ok). cbv zeta.
+  rewrite rendered_sems by exact Hok.
+  set (L := map classify (map logical sps)) in *.
+  destruct (sems_of_lparams L) as (E1 & E2 & E3); [intros v Hv; apply H20, in_lp_ihs, Hv|].
+  rewrite E1. unfold scrape_of_params, mk_q. cbn [q_ihs]. rewrite E3.
+  destruct (lp_ihs L); reflexivity.
+Qed.
+
+(* ------------------------------------------------------------------------
+   Examples: the hypotheses of the theorems are satisfiable *)
+Definition style_all (e : esc) (s : bytes) : list (Z * esc) := map (fun b => (b, e)) s.
+Definition ex_ip (s : bytes) : option bytes :=
+  if bytes_eqb s (s2b "192.0.2.7") then Some [0;0;0;0;0;0;0;0;0;0;255;255;192;0;2;7] else None.
+Definition ex_opts := {| o_spoof := false; o_real_ip_header := []; o_max_numwant := 100;
+                         o_default_numwant := 50; o_max_scrape := 2 |}.
+Definition ex_fields : afields :=
+  {| f_ih := s2b "aaaaaaaaaa %&;=+?#/\"; f_pid := s2b "-TR2940-k8hj0wgej6ch"; f_port := 6881;
+     f_left := 18446744073709551615; f_downloaded := 0; f_uploaded := 3;
+     f_event := Some (EvStarted, [true; false; true]); f_numwant := Some 500;
+     f_compact := Some (s2b "1"); f_ip := None; f_ipv4 := None; f_ipv6 := None |}.
+Definition ex_sp k v semi := {| sp_key := k; sp_val := v; sp_bare := false; sp_semi := semi |}.
+Definition ex_sps : list sparam :=
+  [ ex_sp (style_all Raw (s2b "PEER_ID")) (style_all (Pct true false) (f_pid ex_fields)) false;
+    ex_sp (style_all Raw (s2b "info_hash"))
+          (style_all Raw (s2b "aaaaaaaaaa") ++ [(32, Plus)] ++ style_all (Pct false false) (s2b "%&;=+?#/\")) true;
+    ex_sp (style_all Raw (s2b "port")) (style_all Raw (s2b "6881")) false;
+    ex_sp (style_all Raw (s2b "Left")) (style_all Raw (s2b "18446744073709551615")) false;
+    ex_sp (style_all Raw (s2b "downloaded")) (style_all (Pct true true) (s2b "0")) true;
+    ex_sp (style_all (Pct false true) (s2b "uploaded")) (style_all Raw (s2b "3")) false;
+    ex_sp (style_all Raw (s2b "event")) (style_all Raw (s2b "StArted")) false;
+    ex_sp (style_all Raw (s2b "numwant")) (style_all Raw (s2b "500")) false;
+    ex_sp (style_all Raw (s2b "compact")) (style_all Raw (s2b "1")) false;
+    ex_sp (style_all Raw (s2b "INFO_HASH")) (style_all Raw (s2b "x")) false;
+    {| sp_key := style_all Raw (s2b "trackerid"); sp_val := []; sp_bare := true; sp_semi := false |} ].
+Definition ex_extra : list (bytes * bytes) := [(s2b "info_hash", s2b "x"); (s2b "trackerid", [])].
+
+Example announce_roundtrip_inhabited :
+  wf_fields ex_fields = true /\ Forall (fun p => sparam_ok p = true) ex_sps /\
+  Permutation (map classify (map logical ex_sps)) (LIH (f_ih ex_fields) :: map LPp (field_params ex_fields ++ ex_extra)) /\
+  Forall (fun kv : bytes * bytes => ~ In (fst kv) announce_keys) ex_extra /\
+  exists r, omap fst (parse_announce ex_ip (fun _ => []) (fun _ => s2b "192.0.2.7") ex_opts
+                        (s2b "/announce" ++ 63 :: render_query ex_sps) (s2b "192.0.2.7:1234")) = Accept r /\
+            r_numwant r = 100 /\ p_ip (r_peer r) = [192;0;2;7] /\ r_af r = V4 /\ r_event r = EvStarted /\
+            r_ih r = f_ih ex_fields /\ r_left r = 18446744073709551615.
+Proof.
+  split; [reflexivity|]. split; [repeat constructor|]. split; [apply perm_swap|].
+  split.
+  - repeat constructor; cbn; intuition discriminate.
+  - eexists. split; [vm_compute; reflexivity|]. repeat split.
+Qed.
+
+Definition ex_uri : bytes :=
+  s2b "/announce?info_hash=aaaaaaaaaaaaaaaaaaaa&peer_id=bbbbbbbbbbbbbbbbbbbb&port=6881&left=1&downloaded=2&uploaded=3&numwant=500&compact=1".
+
+Example accept_postconditions_inhabited :
+  exists r q, parse_announce ex_ip (fun _ => []) (fun _ => s2b "192.0.2.7") ex_opts ex_uri [] = Accept (r, q).
+Proof. eexists. eexists. vm_compute. reflexivity. Qed.
+
+Example reject_inhabited :
+  parse_announce ex_ip (fun _ => []) (fun _ => []) ex_opts (s2b "/announce?port=%zz") [] = Reject ErrInvalidQueryEscape /\
+  parse_announce ex_ip (fun _ => []) (fun _ => []) ex_opts ex_uri [] = Reject (ClientErr E_ip).
+Proof. split; vm_compute; reflexivity. Qed.
+
+Example last_value_wins_inhabited :
+  let s1 := [s2b "info_hash=aaaaaaaaaaaaaaaaaaaa"; s2b "peer_id=bbbbbbbbbbbbbbbbbbbb"; s2b "port=1"] in
+  let s := s2b "NumWant=7" in
+  let s2 := [s2b "left=1"; s2b "downloaded=2"; s2b "numwant=9"; s2b "uploaded=3"] in
+  forallb seg_ok (s1 ++ s :: s2) = true /\ seg_sem s = SP k_numwant (s2b "7") /\
+  (exists s' v', In s' s2 /\ seg_sem s' = SP k_numwant v') /\
+  exists r, omap fst (parse_announce ex_ip (fun _ => []) (fun _ => s2b "192.0.2.7") ex_opts
+                        (s2b "/a" ++ 63 :: join_amp (s1 ++ s :: s2)) []) = Accept r /\ r_numwant r = 9.
+Proof.
+  cbv zeta. split; [reflexivity|]. split; [reflexivity|]. split.
+  - exists (s2b "numwant=9"), (s2b "9"). split; [cbn; tauto|reflexivity].
+  - eexists. split; [vm_compute; reflexivity|reflexivity].
+Qed.
+
+Example order_independent_inhabited :
+  let segs := [s2b "info_hash=aaaaaaaaaaaaaaaaaaaa"; s2b "peer_id=bbbbbbbbbbbbbbbbbbbb"; s2b "port=1";
+               s2b "left=1"; s2b "downloaded=2"; s2b "uploaded=3"] in
+  forallb seg_ok segs = true /\ NoDup (seg_keys segs) /\ Permutation segs (rev segs) /\
+  exists r, omap fst (parse_announce ex_ip (fun _ => []) (fun _ => s2b "192.0.2.7") ex_opts
+                        (s2b "/a" ++ 63 :: join_amp segs) []) = Accept r.
+Proof.
+  cbv zeta. split; [reflexivity|]. split; [|split; [apply Permutation_rev|eexists; vm_compute; reflexivity]].
+  apply (NoDup_map_inv (fun o => match o with None => [] | Some k => 0 :: k end)).
+  cbn. apply nodupb_sound. reflexivity.
+Qed.
+
+Example scrape_roundtrip_inhabited :
+  let sps := [ ex_sp (style_all Raw (s2b "info_hash")) (style_all (Pct true true) (s2b "aaaaaaaaaaaaaaaaaaaa")) false;
+               ex_sp (style_all Raw (s2b "x")) (style_all Raw (s2b "y")) true;
+               ex_sp (style_all Raw (s2b "info_hash")) (style_all Raw (s2b "bbbbbbbbbbbbbbbbbbbb")) false;
+               ex_sp (style_all Raw (s2b "info_hash")) (style_all Raw (s2b "cccccccccccccccccccc")) false ] in
+  Forall (fun p => sparam_ok p = true) sps /\
+  (forall v, In v (lp_ihs (map classify (map logical sps))) -> length v = 20%nat) /\
+  omap fst (parse_scrape ex_opts (s2b "/scrape" ++ 63 :: render_query sps)) =
+  Accept [s2b "aaaaaaaaaaaaaaaaaaaa"; s2b "bbbbbbbbbbbbbbbbbbbb"].
+Proof.
+  cbv zeta. split; [repeat constructor|]. split; [|vm_compute; reflexivity].
+  intros v Hv. cbn in Hv. repeat (destruct Hv as [<-|Hv]; [reflexivity|]). destruct Hv.
 Qed.
